@@ -1,4 +1,5 @@
 import MgpuProofs.C19Reach
+import MgpuProofs.C19Enab
 /-! Helper definitions for C19 (closed system): runs of valid moves, an executable validity check,
     a concrete run used as non-vacuity witness. -/
 namespace C19
@@ -47,5 +48,39 @@ def demoOps : List Op :=
    .tick 1, .tick 1, .pick 1, .dnet 0, .tick 0, .tick 0, .mtake 0, .mdo 0 0, .mrsp 0 0, .tick 0, .tick 0]
 
 def demoW : World := { sys := { m0 := Array.replicate 128 7, m1 := Array.ofFn (n := 128) fun x => x.val } }
+
+theorem World.step_sys (w : World) (o : Op) : (w.step o).sys = (C19.step w.sys o).1 := by
+  cases o <;> simp only [World.step]
+  split <;> rfl
+
+theorem valid_of_honest (w : World) (o : Op) (ho : o.honest = true) (hs : o.isSubmit = false) : o.valid w := by
+  cases o <;> simp_all [Op.valid, Op.isSubmit]
+
+/-- a run of productive moves of the environment and the controllers, without new submissions -/
+def ProductiveRun : World → List Op → Prop
+  | _, [] => True
+  | w, o :: ops => o.honest = true ∧ o.isSubmit = false ∧ productive w.sys o = true ∧ ProductiveRun (w.step o) ops
+
+def productiveRunB : World → List Op → Bool
+  | _, [] => true
+  | w, o :: ops => o.honest && !o.isSubmit && productive w.sys o && productiveRunB (w.step o) ops
+
+theorem productiveRun_of_B {w : World} (ops : List Op) (h : productiveRunB w ops = true) : ProductiveRun w ops := by
+  induction ops generalizing w with
+  | nil => trivial
+  | cons o ops ih =>
+    simp only [productiveRunB, Bool.and_eq_true, Bool.not_eq_true'] at h
+    exact ⟨h.1.1.1, h.1.1.2, h.1.2, ih h.2⟩
+
+/-- no productive move is enabled -/
+def Quiescent (s : Sys) : Prop := ∀ o : Op, o.honest = true → o.isSubmit = false → productive s o = false
+
+theorem productiveRun_reach {w : World} (h : WReach w) (ops : List Op) (hr : ProductiveRun w ops) :
+    WReach (runW w ops) := by
+  induction ops generalizing w with
+  | nil => exact h
+  | cons o ops ih =>
+    obtain ⟨h1, h2, _, h4⟩ := hr
+    exact ih (WReach.step o h (valid_of_honest w o h1 h2)) h4
 
 end C19
